@@ -21,8 +21,8 @@ SPEC = {'id': 'C13',
           ('Snowflake.Tie.SessionDesc', 'Snowflake.Tie.SessionDesc.asserts_checked_tie'),
           ('Snowflake.Tie.SessionDesc', 'Snowflake.Tie.SessionDesc.switch_tie'),
           ('Snowflake.Tie.SessionDesc', 'Snowflake.Tie.SessionDesc.typeOfName_name')],
- 'harness': {'pkg': 'common/util', 'test': 'TestVerifC13', 'checklinkname': True},
- 'overlay': {'common/util/zz_verif_c13_test.go': 'c13_util_test.go',
+ 'harness': [{'pkg': 'common/util', 'test': 'TestVerifC13$', 'checklinkname': True}, {'pkg': 'proxy/lib', 'test': 'TestVerifC13Proxy$', 'checklinkname': True}, {'pkg': 'client/lib', 'test': 'TestVerifC13Client$', 'checklinkname': True}],
+ 'overlay': {'common/util/zz_verif_c13_test.go': 'c13_util_test.go', 'proxy/lib/zz_verif_c13_test.go': 'c13_proxylib_test.go', 'client/lib/zz_verif_c13_test.go': 'c13_clientlib_test.go',
              'common/zzverif/jsongen.go': 'vh/jsongen.go'},
  'rule': 'cases = JSON-shaped documents (object with present / absent / duplicated / re-spelled "type" and "sdp" '
          'members of every JSON type, extra members, whitespace), every JSON type at top level, deep nesting around '
